@@ -174,8 +174,14 @@ var solvers = []solverSpec{
 	}, "(set-logic ALL)\n"},
 }
 
+func seededZ3(seed int) solverSpec {
+	return solverSpec{fmt.Sprintf("z3-5.1.0/seed%d", seed), func(f string, s int) []string {
+		return []string{"z3-new", fmt.Sprintf("-T:%d", s), fmt.Sprintf("smt.random_seed=%d", seed), fmt.Sprintf("sat.random_seed=%d", seed), f}
+	}, ""}
+}
+
 func runSolver(ctx context.Context, sp solverSpec, dir string, id int, script string, secs int) (string, string, float64) {
-	file := filepath.Join(dir, fmt.Sprintf("q%d_%s.smt2", id, sp.name))
+	file := filepath.Join(dir, fmt.Sprintf("q%d_%s.smt2", id, sanitize(sp.name)))
 	text := script
 	if sp.pre != "" {
 		// cvc5 wants produce-models before set-logic
@@ -316,8 +322,14 @@ func solveRace(dir string, id int, q *Query, timeout int, prev *QResult) *QResul
 		st, out, name string
 		el            float64
 	}
-	ch := make(chan res, len(solvers))
-	for _, sp := range solvers {
+	racers := solvers
+	if timeout >= 40 {
+		// escalation stages: quantifier instantiation is sensitive to term order; differently seeded
+		// runs of the same solver often decide what the default run does not
+		racers = append(append([]solverSpec{}, solvers...), seededZ3(7), seededZ3(42))
+	}
+	ch := make(chan res, len(racers))
+	for _, sp := range racers {
 		sp := sp
 		go func() {
 			st, out, el := runSolver(ctx, sp, dir, id, q.Script, timeout)
@@ -326,7 +338,7 @@ func solveRace(dir string, id int, q *Query, timeout int, prev *QResult) *QResul
 	}
 	best := res{st: "unknown"}
 	var total float64
-	for i := 0; i < len(solvers); i++ {
+	for i := 0; i < len(racers); i++ {
 		x := <-ch
 		r.Attempt = append(r.Attempt, fmt.Sprintf("%s:%s:%.2fs", x.name, x.st, x.el))
 		if x.el > total {
@@ -512,6 +524,9 @@ func summarise(rs []*QResult) []*ObligResult {
 		}
 		if r.Q.Group == "nopanic" {
 			name = r.Q.Unit + ".nopanic"
+		}
+		if r.Q.Group == "locks" {
+			name = r.Q.Unit + ".lock_discipline"
 		}
 		o := byName[name]
 		if o == nil {
